@@ -520,3 +520,88 @@ func appendsTypeRef(pk *packages.Package, info *types.Info, fn *types.Func) ast.
 	})
 	return out
 }
+
+// refsCollectedEverywhere (R-FLOW/deps, collector clause): the summary of a
+// source file lists the types it refers to, and the package loader loads the
+// packages of exactly those. A reference made inside a service or topic block
+// needs its package loaded like any other — the generated request or message
+// object is converted with the same resolver. So while exports are collected
+// outside those blocks only (R-PROV/exportscope), references are collected
+// everywhere: the function that appends a reference to the collector's list
+// does so unconditionally.
+func refsCollectedEverywhere(r *core.Run) {
+	r.Rule("R-FLOW/deps", "SourceSummary: in the loop over the collected type references, every iteration that does not return an error appends the expanded reference to TypeDependencies; an iteration may skip the append only under a seen-set test whose key reads both the package and the schema name of the reference (two packages may export the same type name) — otherwise a package referenced only through a same-named type is never loaded and a valid file is rejected. Collector clause: the j5convert function that appends a *sourcewalk.RefNode parameter to a list of its receiver does so on every path (no return before the append, the append under no condition)")
+	pk := r.P.Pkg(convRel)
+	if pk == nil {
+		r.Fatal("anchor: package %s not found", convRel)
+		return
+	}
+	info := pk.TypesInfo
+	n := 0
+	core.AllFuncDecls(pk, func(fd *ast.FuncDecl) {
+		if fd.Body == nil || fd.Recv == nil || fd.Type.Params == nil {
+			return
+		}
+		params := map[types.Object]bool{}
+		for _, p := range fd.Type.Params.List {
+			if strings.HasSuffix(core.TypeStr(info.TypeOf(p.Type)), "sourcewalk.RefNode") {
+				for _, nm := range p.Names {
+					params[info.ObjectOf(nm)] = true
+				}
+			}
+		}
+		if len(params) == 0 {
+			return
+		}
+		var app *ast.AssignStmt
+		ast.Inspect(fd.Body, func(m ast.Node) bool {
+			as, ok := m.(*ast.AssignStmt)
+			if !ok || len(as.Lhs) != 1 || len(as.Rhs) != 1 {
+				return true
+			}
+			c, ok := core.Unparen(as.Rhs[0]).(*ast.CallExpr)
+			if !ok || core.CalleeName(info, c) != "builtin.append" || len(c.Args) < 2 {
+				return true
+			}
+			if _, isSel := core.Unparen(as.Lhs[0]).(*ast.SelectorExpr); !isSel {
+				return true
+			}
+			for _, a := range c.Args[1:] {
+				if id, ok := core.Unparen(a).(*ast.Ident); ok && params[info.ObjectOf(id)] {
+					app = as
+				}
+			}
+			return true
+		})
+		if app == nil {
+			return
+		}
+		n++
+		o := r.Add("R-FLOW/deps", convRel+"."+core.FuncName(fd)+" | references collected unconditionally", app.Pos(), "collection of a type reference")
+		top := false
+		for _, st := range fd.Body.List {
+			if st == ast.Stmt(app) {
+				top = true
+				break
+			}
+			bad := false
+			ast.Inspect(st, func(m ast.Node) bool {
+				if _, isRet := m.(*ast.ReturnStmt); isRet {
+					bad = true
+				}
+				return true
+			})
+			if bad {
+				break
+			}
+		}
+		if top {
+			o.Auto("appended on every path")
+		} else {
+			o.Fail("the reference is not recorded on every path (a return precedes the append, or the append is conditional): a package referred to only from where the condition skips — a service request, a topic message — is never loaded, and the valid package does not compile (`package X not loaded`)")
+		}
+	})
+	if n == 0 {
+		r.Fatal("R-FLOW/deps: no function of %s appends a *sourcewalk.RefNode to its receiver's list (summaryWalker.addRef)", convRel)
+	}
+}
